@@ -3,7 +3,7 @@
 # (2) stand-in when a cassette unit is undecided.  Oracles: C07 round trip (id, key set, data, metadata; metadata fetched alone agrees; unknown
 # id -> NoSuchRecording), C11 (two fetches are independent object graphs; mutating one leaves the next fetch intact), C10 (lookup by category and
 # metadata filter agrees with a reference evaluation), C15 (S3: read-only never writes; transient close removes exactly the own recordings).
-# Bound: 3 cassette types (S3 with key prefixes '', 'p', 'x/metadata'), 7 key texts, 9 value shapes (incl. None, nested, shared sub-object, bytes,
+# Bound: 3 cassette types (S3 with key prefixes '', 'p', 'x/metadata'), 9 key texts (incl. two that look like jsonpickle's escaped keys), 9 value shapes (incl. None, nested, shared sub-object, bytes,
 # tuple, plain object), 3 metadata dicts, other recordings saved before and after, 8 lookup queries.  Known findings are outside the universe
 # (data key '_metadata', jsonpickle tag keys, sets, a shared reference after a plain object).  exit 0 clean, 1 violated (prints the case as JSON on the last line).
 import copy
@@ -32,7 +32,7 @@ class Plain(object):
 
 
 SHARED = [1, 2]
-KEYS = ['k', 'input: a args=[1], kwargs=[]', 'output: x #1.output', 'q"uo\'te', u'unicöde ☃', 'a/b\\c', '{"json": [1,2]}']
+KEYS = ['k', 'input: a args=[1], kwargs=[]', 'output: x #1.output', 'q"uo\'te', u'unicöde ☃', 'a/b\\c', '{"json": [1,2]}', 'json://"k"', 'json://1']
 VALUES = [0, None, '', [1, [2, {'z': None}]], {'a': {'b': [1, 2, 3]}}, (1, 'two'), b'\x00\xffbytes', Plain([1, 2]), {'s1': SHARED, 's2': SHARED}]
 METAS = [{}, {'x': 1, 'flag': False}, {'name': 'abc', 'nested': {'n': [1, 2]}, 'none': None}]
 tmp = tempfile.mkdtemp(prefix='c07_battery_'); n = 0
